@@ -27,16 +27,18 @@ import (
 // parsed by spcodec.WSParser).
 
 type spec struct {
-	Kind   string   `json:"kind"` // frame | hsdev | ws
-	Tr     string   `json:"tr"`
-	Role   string   `json:"role"` // what the LIBRARY does: dial | listen
-	Sock   string   `json:"sock"` // raw-mode socket constructor; its protocol number is the subject
-	Seg    string   `json:"seg,omitempty"`
-	Sizes  []int    `json:"sizes,omitempty"`  // body sizes, peer -> library then library -> peer
-	Devs   [][2]int `json:"devs,omitempty"`   // hsdev: (position, value) single-byte deviations of the peer header
-	Claims []int    `json:"claims,omitempty"` // hsdev: well-formed headers naming these protocol numbers
-	Trunc  []int    `json:"trunc,omitempty"`  // hsdev: correct header cut to this many bytes, then end of stream
-	Full   bool     `json:"full,omitempty"`   // ws listen: the whole list of foreign subprotocol offers
+	Kind   string     `json:"kind"` // frame | hsdev | ws
+	Tr     string     `json:"tr"`
+	Role   string     `json:"role"` // what the LIBRARY does: dial | listen
+	Sock   string     `json:"sock"` // raw-mode socket constructor; its protocol number is the subject
+	Seg    string     `json:"seg,omitempty"`
+	Sizes  []int      `json:"sizes,omitempty"`  // body sizes, peer -> library then library -> peer
+	Devs   [][2]int   `json:"devs,omitempty"`   // hsdev: (position, value) single-byte deviations of the peer header
+	Claims []int      `json:"claims,omitempty"` // hsdev: well-formed headers naming these protocol numbers
+	Trunc  []int      `json:"trunc,omitempty"`  // hsdev: correct header cut to this many bytes, then end of stream
+	Full   bool       `json:"full,omitempty"`   // ws listen: the whole list of foreign subprotocol offers
+	Cuts   []cutSpec  `json:"cuts,omitempty"`   // cut: streams that end inside a frame, one connection each
+	Idle   []idleSpec `json:"idle,omitempty"`   // slowhs: connections that are part-way through the handshake when the next peer arrives
 }
 
 func TestMain(m *testing.M) { hx.Main(m) }
@@ -187,6 +189,10 @@ func TestC15(t *testing.T) {
 	for i := 0; i < r.Pick(18, 400); i++ {
 		cases = append(cases, mon.CaseSpec{Name: "conc", Spec: spec{Kind: "conc", Tr: []string{"ipc", "tcp", "tls+tcp"}[i%3], Sizes: []int{8 + rnd.Intn(12)}}})
 	}
+	// streams that end inside a frame; peers that are slow with their header while others connect
+	// (appended last: the cases above keep their indices and specs)
+	cases = append(cases, genCutCases(rnd, r.Pick(3, 20), r.Pick(3, 5))...)
+	cases = append(cases, genSlowHsCases(rnd, r.Pick(2, 12))...)
 
 	r.Run(cases, func(c *mon.Case) {
 		sp := c.Spec.(spec)
@@ -211,6 +217,10 @@ func TestC15(t *testing.T) {
 			caseConc(c, sp)
 		case "eager":
 			caseEager(c, sp)
+		case "cut":
+			caseCut(c, sp)
+		case "slowhs":
+			caseSlowHs(c, sp)
 		}
 		hx.LedgerCheck(c)
 	})
@@ -250,6 +260,7 @@ func watch(s mangos.Socket) *pipeWatch {
 }
 
 func (w *pipeWatch) Attached() int { w.mu.Lock(); defer w.mu.Unlock(); return w.attached }
+func (w *pipeWatch) Detached() int { w.mu.Lock(); defer w.mu.Unlock(); return w.detached }
 
 // foreign names an attached pipe whose peer is a socket of another process
 // (a stray connection to a recycled loopback port), or returns "".
@@ -363,6 +374,11 @@ type rig struct {
 	cliTLS *tls.Config
 	conns  []net.Conn
 	tag    string // tr:role:sock, used in signatures
+	// stallSig, when set, is the signature for "the library does not start this connection's
+	// handshake" (TLS handshake or own header not forthcoming): the kinds that keep other
+	// connections pending on purpose name that situation.
+	stallSig   string
+	lastDialer mangos.Dialer // role dial: the dialer of the latest rawConn
 }
 
 func newRig(c *mon.Case, sp spec) *rig {
@@ -418,11 +434,39 @@ func (g *rig) wait(sig, what string, call *mon.Call) bool {
 
 // rawConn establishes the byte stream (no SP bytes written yet by the peer).
 // For role dial it also returns the library's Dial call and dialer.
-func (g *rig) rawConn() (net.Conn, *mon.Call, mangos.Dialer, bool) {
+func (g *rig) rawConn() (net.Conn, *mon.Call, mangos.Dialer, bool) { return g.rawConnX(false) }
+
+// stall is the signature for a connection whose set-up the library does not begin.
+func (g *rig) stall(def string) string {
+	if g.stallSig != "" {
+		return g.stallSig
+	}
+	return def
+}
+
+// rawConnX is rawConn; with noTLS (tls+tcp only) the raw side returns its
+// *tls.Conn before the TLS handshake: the TCP connection is up and the raw
+// peer has sent nothing at all yet.
+func (g *rig) rawConnX(noTLS bool) (net.Conn, *mon.Call, mangos.Dialer, bool) {
 	c := g.c
 	if g.sp.Role == "listen" {
-		dc := mon.Go("raw-dial", func() (interface{}, error) { return spcodec.Dial(g.url, g.cliTLS) })
-		if !g.wait("harness:raw-dial-stuck", "raw peer connecting to the library listener", dc) {
+		dc := mon.Go("raw-dial", func() (interface{}, error) {
+			if noTLS {
+				_, hostport := spcodec.SplitURL(g.url)
+				t, err := spcodec.DialTCPNoLinger("tcp", hostport)
+				if err != nil {
+					return nil, err
+				}
+				return tls.Client(t, g.cliTLS), nil
+			}
+			return spcodec.Dial(g.url, g.cliTLS)
+		})
+		// plain connects complete in the kernel; a TLS handshake needs the library's side to run
+		sig := "harness:raw-dial-stuck"
+		if g.sp.Tr == "tls+tcp" && !noTLS {
+			sig = g.stall(sig)
+		}
+		if !g.wait(sig, "raw peer connecting to the library listener", dc) {
 			return nil, nil, nil, false
 		}
 		v, err, _ := dc.Result()
@@ -439,9 +483,15 @@ func (g *rig) rawConn() (net.Conn, *mon.Call, mangos.Dialer, bool) {
 		panic(envError{err})
 	}
 	d.SetOption(mangos.OptionReconnectTime, time.Hour) // one connection per dialer: no re-dial into the raw listener
-	ac := mon.Go("raw-accept", func() (interface{}, error) { return g.rl.Accept() })
+	g.lastDialer = d
+	ac := mon.Go("raw-accept", func() (interface{}, error) {
+		if noTLS {
+			return g.rl.L.Accept() // a *tls.Conn whose handshake has not been run
+		}
+		return g.rl.Accept()
+	})
 	dial := mon.Go("Dial", func() (interface{}, error) { return nil, d.Dial() })
-	if !g.wait("harness:raw-accept-stuck", "raw listener accepting the library's connection", ac) {
+	if !g.wait(g.stall("harness:raw-accept-stuck"), "raw listener accepting the library's connection", ac) {
 		return nil, nil, nil, false
 	}
 	v, err, _ := ac.Result()
@@ -463,7 +513,17 @@ func (g *rig) readOwnHeader(cn net.Conn) bool {
 		n, err := readFull(cn, b)
 		return b[:n], err
 	})
-	if !g.wait("stream/own-header-not-sent-first", "reading the library's 8-byte header before the peer has sent anything", rd) {
+	what := "reading the library's 8-byte header before the peer has sent anything [" + g.tag + "]"
+	switch r := mon.Await(rd.Done, mon.AwaitOpts{}); {
+	case r.V == mon.Done:
+	case spcodec.ForeignTCP(cn.RemoteAddr()):
+		c.Inconclusive("the raw listener accepted a connection from another process (%s)", cn.RemoteAddr())
+		return false
+	case r.V == mon.Stuck:
+		c.Violate(g.stall("stream/own-header-not-sent-first")+":"+g.tag, "%s: stuck after %v — every goroutine parked, identical over %d samples:\n%s", what, r.Waited, 5, r.Dump)
+		return false
+	default:
+		c.Inconclusive("%s: not done after %v, process still active", what, r.Waited)
 		return false
 	}
 	v, err, _ := rd.Result()
